@@ -74,3 +74,44 @@ package executor
 //@   requires this != nil && typeid(this.logger) != 0 && accountdb != nil && service.logger != nil
 //@   requires [wf] forall a common.Address :: balOf(a) >= 0
 //@   modifies ghost(bal), ghost(supply)
+
+// ---------------------------------------------------------------------------------------------
+// Gas bookkeeping of a contract transaction (C06, C11): the budget handed to the EVM and the gas billed afterwards are
+// differences of unsigned numbers - neither may wrap (obligations safe.overflow, in mathematical integers). A wrapped
+// budget is an almost unlimited one; a wrapped bill is a fee the sender cannot pay while the fee account is credited
+// with it all the same. Only this arithmetic is decided here; the map lookups and type assertions on the block
+// context are assumed safe (option nosafety), the EVM is its contract.
+//@ func ext_newEVM
+//@   option trusted extern=com.tuntun.rangers/node/src/vm.NewEVMWithNFT
+//@   ensures result != nil && fresh(result) && typeid(result.StateDB) != 0
+//@   modifies nothing
+
+//@ func ext_getSubChainStatus
+//@   option trusted extern=com.tuntun.rangers/node/src/service.GetSubChainStatus
+//@   modifies nothing
+
+//@ func getBlockHashFn
+//@   option trusted
+//@   modifies nothing
+
+//@ func IntrinsicGas
+//@   option trusted
+//@   modifies nothing
+
+//@ func ext_evmCreate
+//@   option trusted extern=(*com.tuntun.rangers/node/src/vm.EVM).Create
+//@   # (the creation path: what it hands back never exceeds what it was given - EVM.create's gas clause, trusted here)
+//@   ensures result2 <= arg3
+//@   modifies ghost(stver), ghost(bal), ghost(supply), ghost(snapver), ghost(snapnext), ghost(snapbal), ghost(snapsupply), ghost(emitted), ghost(acct)
+
+//@ func ext_setNonce
+//@   option trusted extern=(*com.tuntun.rangers/node/src/storage/account.AccountDB).SetNonce
+//@   modifies ghost(stver), ghost(acct)
+
+//@ func contractExecutor.Execute
+//@   property C06 C11
+//@   option intmode=math nosafety
+//@   requires this != nil && typeid(this.logger) != 0 && transaction != nil && header != nil && accountdb != nil && context != nil
+//@   requires [wf] forall a common.Address :: balOf(a) >= 0
+//@   requires [nonces!init] forall a common.Address :: nonceOf(a) < 18446744073709551615
+//@   requires [data!init] istype(context["contractData"], *ContractRawData) && unbox(context["contractData"], *ContractRawData) != nil && unbox(context["contractData"], *ContractRawData).TransferValue != nil && big(unbox(context["contractData"], *ContractRawData).TransferValue) >= 0
